@@ -262,8 +262,9 @@ def main(argv=None):
         wall_s=round(wall, 2),
         violations=len({(fn, ob["name"].split("[")[0]) for fn, cfg, ob in new_viol}),
     )
-    os.makedirs(os.path.join(ROOT, "evidence"), exist_ok=True)
-    with open(os.path.join(ROOT, "evidence", prop + ".json"), "w") as f:
+    evdir = os.environ.get("PYVC_EVIDENCE_DIR") or os.path.join(ROOT, "evidence")
+    os.makedirs(evdir, exist_ok=True)
+    with open(os.path.join(evdir, prop + ".json"), "w") as f:
         json.dump(ev, f, indent=1, default=str)
     slow = sorted(((ob.get("s", 0), fn, repr(verify._cfg_repr(cfg)), ob["name"], ob["verdict"]) for fn, cfg, ob in obligations), reverse=True)[:3]
     if slow and slow[0][0] > 2.0:
